@@ -22,6 +22,7 @@ type Oracles struct {
 	Handles         bool // C15: fd / mapping / directory accounting at the end
 	ChildLabels     bool // C11 classification
 	MergeLabels     bool // C08 classification
+	Faults          bool // C06: faults may be injected; extra checks after failed rounds
 }
 
 type snapHandle struct {
@@ -60,6 +61,7 @@ type Hist struct {
 	retainedVals []retainedVal
 	childOnly    map[int]bool
 	hadChildren  bool
+	copiesAfterFault int
 	gaugeCopies  int
 }
 
@@ -252,9 +254,13 @@ func RunHistoryWith(t TB, p *Program, o Oracles, setup func(e *Env)) *Hist {
 	e.Open()
 	h.noteCompactions()
 	for i, op := range p.Ops {
+		if e.curStep != nil {
+			*e.curStep = i
+		}
 		h.step(i, op)
 		h.afterStep(i, op)
 	}
+	e.faultsOff = true // once operations succeed again, persistence must catch up
 	h.final()
 	return h
 }
@@ -418,6 +424,10 @@ func (h *Hist) step(i int, op Op) {
 func (h *Hist) afterRound(when string, roundsBefore, errsBefore int) {
 	if h.RoundErrs > errsBefore {
 		h.roundFailed(when)
+		if h.O.Faults && h.Cfg.Backing == "store" && h.copiesAfterFault < 4 {
+			h.copiesAfterFault++
+			h.reopenCopyPrefix(when, h.Persisted)
+		}
 	}
 	if h.Rounds > roundsBefore {
 		for _, sh := range h.snaps {
@@ -473,7 +483,7 @@ func (h *Hist) reopen(when string, op Op) {
 		}
 		if !h.Drain() {
 			h.roundFailed(when)
-			if h.O.PersistErrFatal || h.O.FinalReopen {
+			if h.O.PersistErrFatal || (h.O.FinalReopen && (!h.O.Faults || h.faultsOff)) {
 				h.Failf("%s: persistence does not catch up with the executed batches (persisted %d of %d, round errors: %v)",
 					when, h.Persisted, n, h.OnErrors())
 			}
